@@ -9,8 +9,9 @@
 (*   ret     <<"ok", n>> or <<kind, 0>>                                     *)
 (* Judged by running everything the inner writer ACCEPTED through the       *)
 (* parser specification and the strict SGR reading:                         *)
-(*   - the visible characters are exactly data[1..n], n = the reported      *)
-(*     count; each is shown in exactly the requested colours;               *)
+(*   - the data is offered in one inner write; the reported count n is     *)
+(*     what that write accepted (ANY prefix, also inside a character);      *)
+(*     the codes in front of it select exactly the requested colours;       *)
 (*   - afterwards the rendition is the default again;                       *)
 (*   - with neither colour nothing but data[1..n] is emitted;               *)
 (*   - the Strip reference gives back data[1..n];                           *)
@@ -39,20 +40,67 @@ Shown(evs, gr, want, acc) ==
 
 Kept(bytes) == LET q == Requirement(bytes) IN SelectSeq([i \in 1..Len(bytes) |-> <<bytes[i], q[i]>>], LAMBDA p : p[2] = "K")
 
+\* the inner write that carries the data: it offers exactly `data` (codes start with ESC, data is plain text)
+IsDataWrite(w, data) == data # <<>> /\ w[1] = data
+RECURSIVE AccWhere(_, _, _)
+AccWhere(inner, data, want) ==      \* accepted bytes of the code writes before (want = "pre") / after ("post") the data write
+  IF inner = <<>> THEN <<>>
+  ELSE LET w == Head(inner) IN
+       IF IsDataWrite(w, data) THEN (IF want = "pre" THEN <<>> ELSE AccBytes(SelectSeq(Tail(inner), LAMBDA x : ~IsDataWrite(x, data))))
+       ELSE (IF want = "pre" THEN SubSeq(w[1], 1, w[3]) ELSE <<>>) \o AccWhere(Tail(inner), data, want)
+
+\* byte-level shape of a run of codes: ( ESC [ (digit | ';' | ':')* m )*  - nothing else, not even bytes the parser would ignore
+RECURSIVE SgrShape(_, _)
+SgrShape(bs, inSeq) ==
+  IF bs = <<>> THEN ~inSeq
+  ELSE IF ~inSeq THEN Len(bs) >= 2 /\ bs[1] = 27 /\ bs[2] = 91 /\ SgrShape(SubSeq(bs, 3, Len(bs)), TRUE)
+  ELSE IF bs[1] = 109 THEN SgrShape(Tail(bs), FALSE)
+  ELSE bs[1] \in 48..59 /\ SgrShape(Tail(bs), TRUE)
+
+\* codes only: no visible character, nothing but SGR; returns <<ok, rendition afterwards>>
+CodesOnly(bytes, gr0) ==
+  LET run == VP!Run(VP!Init0, bytes)
+      sh  == Shown(run[2], gr0, [fg |-> <<"impossible">>, bg |-> None, ul |-> None, eff |-> {}], <<>>)
+  IN <<SgrShape(bytes, FALSE) /\ sh[1] /\ sh[3] = <<>> /\ run[1].st = "Ground", sh[2]>>
+
+\* writers observed only through their final content (Vec<u8>, File): one record holding everything; the data must sit in it
+\* between codes that select the colours and codes that restore the default
+WholeOk(e) ==
+  LET acc == AccBytes(e.inner)
+      n   == e.ret[2]
+  IN /\ e.ret[1] = "ok" /\ n = Len(e.data)
+     /\ \E i \in 0..(Len(acc) - n) :
+          /\ SubSeq(acc, i + 1, i + n) = e.data
+          /\ LET pre  == SubSeq(acc, 1, i)
+                 post == SubSeq(acc, i + n + 1, Len(acc))
+                 p    == CodesOnly(pre, Default)
+                 q    == CodesOnly(post, p[2])
+             IN /\ p[1] /\ p[2] = Want(e.fg, e.bg) /\ q[1] /\ q[2] = Default
+                /\ ((e.fg = 16 /\ e.bg = 16) => pre = <<>> /\ post = <<>>)
+                /\ Kept(pre) = <<>> /\ Kept(post) = <<>>
+
 CallOk(e) ==
-  LET acc  == AccBytes(e.inner)
-      kind == e.ret[1]
+  IF e.whole THEN WholeOk(e) ELSE
+  LET kind == e.ret[1]
       hard == \E k \in 1..Len(e.inner) : e.inner[k][2] \in {"eW", "eO"}
+      dataWrites == {k \in 1..Len(e.inner) : IsDataWrite(e.inner[k], e.data)}
   IN IF kind = "ok" THEN
         LET n    == e.ret[2]
-            want == SubSeq(e.data, 1, n)
-            run  == VP!Run(VP!Init0, acc)
-            sh   == Shown(run[2], Default, Want(e.fg, e.bg), <<>>)
-            kept == Kept(acc)
+            pre  == AccWhere(e.inner, e.data, "pre")
+            post == AccWhere(e.inner, e.data, "post")
+            p    == CodesOnly(pre, Default)
+            q    == CodesOnly(post, p[2])
         IN /\ n <= Len(e.data) /\ ~hard
-           /\ sh[1] /\ sh[3] = want /\ sh[2] = Default /\ run[1].st = "Ground"
-           /\ [i \in 1..Len(kept) |-> kept[i][1]] = want
-           /\ ((e.fg = 16 /\ e.bg = 16) => acc = want)
+           \* the data goes out in ONE inner write (a prefix of it is accepted: any prefix, also one that ends inside a
+           \* character) and the call returns exactly the number of bytes that write accepted
+           /\ IF e.data = <<>> THEN n = 0 /\ dataWrites = {}
+              ELSE Cardinality(dataWrites) = 1 /\ (\A k \in dataWrites : e.inner[k][2] = "ok" /\ e.inner[k][3] = n)
+           \* in front of the data: codes only, selecting exactly the requested colours; behind it: codes only, restoring the default
+           /\ p[1] /\ p[2] = Want(e.fg, e.bg)
+           /\ q[1] /\ q[2] = Default
+           /\ ((e.fg = 16 /\ e.bg = 16) => pre = <<>> /\ post = <<>>)
+           \* the Strip reference keeps nothing of the codes (so stripping the output gives the accepted data back)
+           /\ Kept(pre) = <<>> /\ Kept(post) = <<>>
      ELSE /\ kind \in {"eI", "eW", "eO", "eZ"}
           /\ (\E k \in 1..Len(e.inner) : e.inner[k][2] = kind \/ (kind = "eZ" /\ e.inner[k][2] = "ok" /\ e.inner[k][3] = 0))
           \* Interrupted surfaces only from the DATA write (a single `write`); on a code it is retried, not returned
